@@ -327,6 +327,17 @@ def _check(pre, cg, aa):
                     STATS['explicit_h'] += 1
                     if aa.degree(n) > 1:
                         rec('C09', 'c09.h_degree', f'{tag} explicit hydrogen {n} has degree {aa.degree(n)}')
+                    elif aa.degree(n) == 1:
+                        # written INSIDE a fragment (same template as the atom it sits on): it belongs to that atom's
+                        # coarse node and reports its fragment name; its weight is its own (it may carry an annotation)
+                        p = next(iter(aa[n]))
+                        mine, theirs = {e[0] for e in d.get('mapping')}, {e[0] for e in aa.nodes[p].get('mapping') or []}
+                        if mine & theirs and len(aa.nodes[p].get('mapping') or []) == 1 and set(d.get('fragid') or []) <= set(aa.nodes[p].get('fragid') or [None]):     # (not on a shared atom: that one has one name for two copies)
+                            for a in ('fragname',):
+                                if d.get(a) != aa.nodes[p].get(a):
+                                    rec('C09', 'c09.h_inherit', f'{tag} written hydrogen {n}: {a}={d.get(a)!r} but its atom {p} (same fragment) has {aa.nodes[p].get(a)!r}')
+                        if not d.get('fragid'):
+                            rec('C09', 'c09.h_inherit', f'{tag} written hydrogen {n} has fragid={d.get("fragid")!r}')
                     continue
                 if aa.degree(n) != 1:
                     rec('C09', 'c09.h_degree', f'{tag} hydrogen {n} has degree {aa.degree(n)}')
